@@ -1066,6 +1066,136 @@ def ampSweep (thorough : Bool) (doc : Bytes → IO Unit) : IO Unit := do
     doc (repDoc pages r f c false)
     doc (repDoc pages r f c true)
 
+/-! ### STRUCTURES RUNNING INTO THE END OF THE FILE WHILE STILL REACHABLE (strengthening after missed seed C01_11)
+
+A plain prefix of a well-formed file loses `startxref` first and is rejected before any structure is read.  Here the
+structure that is cut is the LAST thing in the file and is still reached: through `/Prev` from a complete newest
+section placed earlier, through a `startxref` (with or without `%%EOF`, or inside a comment) placed BEFORE it, or - for
+objects - through a complete cross-reference section placed earlier whose entry points behind `%%EOF`.  `eofDoc kind reach`
+returns the complete file and the length t of its last structure; the cases are the file minus its last k bytes, k = 0..t
+(k = 0 is the control). -/
+
+/-- the seven objects of `plain` -/
+def eofObjs : List Bytes :=
+  [obj 1 (bs "<< /Type /Catalog /Pages 2 0 R >>"),
+   obj 2 (bs "<< /Type /Pages /Kids [3 0 R] /Count 1 >>"),
+   obj 3 (bs "<< /Type /Page /Parent 2 0 R /MediaBox [0 0 612 792] /Contents 4 0 R /Resources << /Font << /F1 5 0 R >> >> >>"),
+   streamObj 4 [] (natStr textContent.length) textContent,
+   obj 5 (bs "<< /Type /Font /Subtype /Type1 /BaseFont /Helvetica /FontDescriptor 6 0 R >>"),
+   obj 6 (bs "<< /Type /FontDescriptor /FontName /Helvetica /Flags 32 /FontFile 7 0 R >>"),
+   streamObj 7 [] (bs "3") (bs "abc")]
+
+/-- offsets of consecutive pieces starting at `start` -/
+def eofOffsets (start : Nat) (ps : List Bytes) : List Nat :=
+  (ps.foldl (fun (acc : Nat × List Nat) p => (acc.1 + p.length, acc.2 ++ [acc.1])) (start, [])).2
+
+/-- a classic table: subsections (first number, entries; none = free) -/
+def eofTable (subs : List (Nat × List (Option Nat))) : Bytes :=
+  bs "xref\n" ++ (subs.map fun (st, es) => natStr st ++ bs " " ++ natStr es.length ++ bs "\n" ++
+    (es.map fun e => match e with
+      | none => bs "0000000000 65535 f \n"
+      | some o => pad10 o ++ bs " 00000 n \n").flatten).flatten
+
+/-- a cross-reference stream object `onum` with /W [1 2 1] rows for objects 0.. (none = free; .inl offset; .inr (stream, index)) -/
+def eofXrefStm (onum : Nat) (rows : List (Option (Nat ⊕ (Nat × Nat)))) (extra : Bytes) : Bytes :=
+  let row (t a b : Nat) : Bytes := [UInt8.ofNat t, UInt8.ofNat (a / 256), UInt8.ofNat (a % 256), UInt8.ofNat b]
+  let data := (rows.map fun r => match r with
+    | none => row 0 0 255
+    | some (.inl o) => row 1 o 0
+    | some (.inr (s, i)) => row 2 s i).flatten
+  streamObj onum (bs "/Type /XRef /Size " ++ natStr rows.length ++ bs " /W [1 2 1] /Root 1 0 R " ++ extra) (natStr data.length) data
+
+/-- least fixed point of a layout whose text contains its own end offset -/
+def eofFix (base : Nat) (mk : Nat → Bytes) : Bytes :=
+  let p1 := base + (mk 0).length
+  let p2 := base + (mk p1).length
+  let p3 := base + (mk p2).length
+  mk p3
+
+/-- the text that announces the last section when it is not reached through /Prev -/
+def eofAnnounce (reach : Nat) (p : Nat) : Bytes :=
+  match reach with
+  | 1 => bs "startxref\n" ++ natStr p ++ bs "\n%%EOF\n"
+  | 2 => bs "startxref\n" ++ natStr p ++ bs "\n"
+  | _ => bs "% moved: startxref " ++ natStr p ++ bs " %%EOF\n"
+
+/-- kinds: 0 classic table + trailer (two subsections), 1 classic table alone (trailer before it is impossible: the entries are last),
+    2 cross-reference stream object, 3 object stream (catalog and page tree) behind a complete cross-reference stream,
+    10+j: object j (1..7) of a classic document moved behind `%%EOF`.  reach: 0 = /Prev from a complete newest section,
+    1 = startxref + %%EOF before it, 2 = startxref without %%EOF before it, 3 = the startxref text inside a comment before it
+    (kinds 0..2 only; the others are reached through the complete section). -/
+def eofDoc (kind reach : Nat) : Bytes × Nat :=
+  let objs := eofObjs
+  let body := hdr ++ objs.flatten
+  let offs := eofOffsets hdr.length objs
+  let all : List (Option Nat) := none :: offs.map some
+  let trailer (extra : Bytes) := bs "trailer\n<< /Size 8 /Root 1 0 R " ++ extra ++ bs ">>\n"
+  -- the last section, given its own offset
+  let lastSect (p : Nat) : Bytes :=
+    match kind with
+    | 0 => eofTable [(0, all.take 4), (4, all.drop 4)] ++ trailer []
+    | 1 => eofTable [(0, all.take 3), (3, all.drop 3)]
+    | _ => eofXrefStm 8 (all.map (fun o => o.map Sum.inl) ++ [some (.inl p)]) []
+  if kind ≤ 2 then
+    if reach == 0 then
+      -- complete newest section, then the older section it names by /Prev
+      let newest (p : Nat) := eofTable [(0, all)] ++ trailer (bs "/Prev " ++ natStr p ++ bs " ") ++
+        bs "startxref\n" ++ natStr body.length ++ bs "\n%%EOF\n"
+      let mid := eofFix body.length newest
+      let p := body.length + mid.length
+      let t := lastSect p
+      (body ++ mid ++ t, t.length)
+    else
+      -- for kind 1 the trailer has to come first as well
+      let pre (p : Nat) := (if kind == 1 then trailer [] else []) ++ eofAnnounce reach p
+      let mid := eofFix body.length pre
+      let p := body.length + mid.length
+      let t := lastSect p
+      (body ++ mid ++ t, t.length)
+  else if kind == 3 then
+    -- 1, 2 in object stream 8; 3..7 plain; cross-reference stream 9 complete and earlier; object stream last
+    let o1 := bs "<< /Type /Catalog /Pages 2 0 R >>"
+    let o2 := bs "<< /Type /Pages /Kids [3 0 R] /Count 1 >>"
+    let h := bs "1 0 2 " ++ natStr (o1.length + 1) ++ bs " "
+    let data := h ++ o1 ++ bs " " ++ o2
+    let os := streamObj 8 (bs "/Type /ObjStm /N 2 /First " ++ natStr h.length) (natStr data.length) data
+    let plainObjs := objs.drop 2
+    let offs := eofOffsets hdr.length plainObjs
+    let body := hdr ++ plainObjs.flatten
+    let xs (p : Nat) := eofXrefStm 9 ([none, some (.inr (8, 0)), some (.inr (8, 1))] ++ offs.map (fun o => some (.inl o)) ++
+      [some (.inl p), some (.inl body.length)]) []
+    let mid (p : Nat) := xs p ++ bs "startxref\n" ++ natStr body.length ++ bs "\n%%EOF\n"
+    let m := eofFix body.length mid
+    (body ++ m ++ os, os.length)
+  else
+    -- object j of the classic document behind %%EOF
+    let j := kind - 10
+    let early := (objs.zip (List.range 7)).filter (fun x => x.2 + 1 != j)
+    let late := objs.getD (j - 1) []
+    let eoffs := eofOffsets hdr.length (early.map (·.1))
+    let body := hdr ++ (early.map (·.1)).flatten
+    let sect (p : Nat) :=
+      let ents := (List.range 7).map fun i =>
+        if i + 1 == j then some p else ((early.zip eoffs).find? (fun x => x.1.2 == i)).map (·.2)
+      eofTable [(0, none :: ents)] ++ trailer [] ++ bs "startxref\n" ++ natStr body.length ++ bs "\n%%EOF\n"
+    let m := eofFix body.length sect
+    (body ++ m ++ late, late.length)
+
+def eofSweep (thorough : Bool) (doc : Bytes → IO Unit) : IO Unit := do
+  -- (kind, reach, dense: every cut up to this many bytes before the end, stride beyond)
+  let cfgs : List (Nat × Nat × Nat × Nat) :=
+    [(0, 0, 82, 9), (0, 1, 82, 9), (0, 2, 0, 3), (0, 3, 0, 7),
+     (1, 0, 48, 9), (1, 1, 48, 9), (1, 2, 42, 9), (1, 3, 0, 7),
+     (2, 0, 30, 4), (2, 1, 30, 4), (2, 2, 0, 5), (2, 3, 0, 9),
+     (3, 0, 40, 5),
+     (13, 0, 24, 5), (14, 0, 40, 5), (11, 0, 0, 4), (17, 0, 0, 3)] ++
+    (if thorough then [(12, 0, 0, 1), (15, 0, 0, 1), (16, 0, 0, 1)] else [])
+  for (kind, reach, dense, stride) in cfgs do
+    let (f, t) := eofDoc kind reach
+    for k in List.range (t + 1) do
+      if thorough || k ≤ dense || k % stride == 0 then doc (f.take (f.length - k))
+
+
 def gen (seed n : Nat) (tier : String) (emit : String → IO Unit) : IO Unit := do
   let doc := fun (b : Bytes) => emit s!"doc {hexOfBytes b}"
   -- fixed scenarios
@@ -1090,6 +1220,7 @@ def gen (seed n : Nat) (tier : String) (emit : String → IO Unit) : IO Unit := 
   parmSweep (tier == "thorough") doc
   lieSweep (tier == "thorough") doc
   shapeSweep (tier == "thorough") doc
+  eofSweep (tier == "thorough") doc
   doc (baseDoc (zlibStored textContent) (bs "/Filter /FlateDecode") none (bs "[3 0 R]") [] [] [] [])
   doc (baseDoc (bs "<424420> ") (bs "/Filter [/ASCIIHexDecode /ASCII85Decode /FlateDecode]") none (bs "[3 0 R]") [] [] [] [])
   doc (baseDoc (bs "zzzz87cURD]i,\"Ebo80~>") (bs "/Filter /ASCII85Decode") none (bs "[3 0 R]") [] [] [] [])
